@@ -5,6 +5,7 @@ package core
 import (
 	"encoding/json"
 	"fmt"
+	"strings"
 	"testing"
 
 	corev1 "k8s.io/api/core/v1"
@@ -105,7 +106,9 @@ func (st *c02TreeState) live() []*c02Quota {
 	return out
 }
 
-func (st *c02TreeState) logf(format string, a ...any) { st.log = append(st.log, fmt.Sprintf(format, a...)) }
+func (st *c02TreeState) logf(format string, a ...any) {
+	st.log = append(st.log, fmt.Sprintf(format, a...))
+}
 
 func c02Qty(rl corev1.ResourceList, d int) int64 {
 	name := corev1.ResourceCPU
@@ -176,7 +179,7 @@ func TestVerifC02Tree(t *testing.T) {
 				}
 			}
 		}
-		addLevel(nil, 1, rapid.IntRange(1, 4).Draw(t, "topLevel"))
+		addLevel(nil, 1, rapid.SampledFrom([]int{1, 2, 2, 3, 3, 4}).Draw(t, "topLevel"))
 
 		sysMax := c02ResList(1<<60, 1<<60)
 		gqm := NewGroupQuotaManager("", scaleMin, sysMax, sysMax)
@@ -248,7 +251,7 @@ func TestVerifC02Tree(t *testing.T) {
 
 		setTotal("total0")
 		for _, q := range leaves() {
-			for k := rapid.IntRange(0, 2).Draw(t, q.Name+"Pods"); k > 0; k-- {
+			for k := rapid.SampledFrom([]int{0, 1, 1, 2, 3}).Draw(t, q.Name+"Pods"); k > 0; k-- {
 				addPod(q, q.Name+"pod")
 			}
 		}
@@ -430,7 +433,45 @@ func TestVerifC02Tree(t *testing.T) {
 				c.ClassIf(pn != extension.RootQuotaName && sh.Left.Sign() > 0 && sh.PosBorrowers >= 1, "inner-level-with-leftover")
 				levels = append(levels, levelOut{pn, d, total, sibs, rt})
 				if sig, msg := c02CheckBig(sibs, total, rt); sig != "" {
-					if c.Violation(t, "tree:"+sig[len("flat:"):], "children of %s, dimension %d (scaleMin=%v guaranteeUsage=%v): %s; %s; history=%q", pn, d, scaleMin, guaranteeUsage, msg, c02Describe(sibs, total, rt), st.log) {
+					// Diagnosis only (does not decide pass/fail): if the parent's calculator works on a copy of a child's
+					// inputs that differs from what QuotaInfo records, name the stale field in the signature.
+					tsig := "tree:" + sig[len("flat:"):]
+					diag := ""
+					resName := corev1.ResourceCPU
+					if d == 1 {
+						resName = corev1.ResourceMemory
+					}
+					if calc := gqm.runtimeQuotaCalculatorMap[pn]; calc != nil && calc.quotaTree[resName] != nil {
+						stale := map[string]bool{}
+						for _, s := range sibs {
+							if ok, nd := calc.quotaTree[resName].find(s.Name); ok {
+								if nd.request != s.Req {
+									stale["request"] = true
+									diag += fmt.Sprintf(" [calculator copy of %s has request=%d, QuotaInfo says %d]", s.Name, nd.request, s.Req)
+								}
+								if nd.min != s.Min {
+									stale["min"] = true
+									diag += fmt.Sprintf(" [calculator copy of %s has min=%d, QuotaInfo says %d]", s.Name, nd.min, s.Min)
+								}
+								if nd.guarantee != s.Guar {
+									stale["guarantee"] = true
+									diag += fmt.Sprintf(" [calculator copy of %s has guarantee=%d, QuotaInfo says %d]", s.Name, nd.guarantee, s.Guar)
+								}
+								if nd.sharedWeight != s.Weight {
+									stale["weight"] = true
+									diag += fmt.Sprintf(" [calculator copy of %s has weight=%d, QuotaInfo says %d]", s.Name, nd.sharedWeight, s.Weight)
+								}
+								if nd.allowLentResource != s.Lent {
+									stale["lent"] = true
+									diag += fmt.Sprintf(" [calculator copy of %s has allowLent=%v, QuotaInfo says %v]", s.Name, nd.allowLentResource, s.Lent)
+								}
+							}
+						}
+						if len(stale) > 0 {
+							tsig = "tree:stale-" + strings.Join(vk.SortedKeys(stale), "+") + "-in-parent-calculator"
+						}
+					}
+					if c.Violation(t, tsig, "children of %s, dimension %d (scaleMin=%v guaranteeUsage=%v): %s;%s %s; history=%q", pn, d, scaleMin, guaranteeUsage, msg, diag, c02Describe(sibs, total, rt), st.log) {
 						return
 					}
 				}
